@@ -59,7 +59,8 @@ Print Assumptions C04_clean_error_iff.
           ([sentinel_free]: predicates, literal datatypes, subject and object of
           instantiation triples) -- no IRI and no blank-node label of an RDF
           document does;
-    (iii) disjunctions disabled (the default) or empty shapes kept ([options_ok]);
+    (iii) disjunctions disabled (the default) or empty shapes kept ([options_ok];
+          dropped further below for thresholds <= 1: [C04_run_total_any_options]);
     (iv)  one of the priority prefixes for the shapes namespace is free
           ([prefix_free], i.e. [shapes_prefix (r_ns c) <> None]).
     For the text ([valid_input_text]) also: no class IRI (object of an
@@ -218,3 +219,40 @@ Proof.
   split; [vm_compute; split; [discriminate | reflexivity]|].
   split; [vm_compute; reflexivity|]. split; [vm_compute; reflexivity|]. eexists. vm_compute. reflexivity.
 Qed.
+
+(** *** ... and not in target-classes mode either, when no class IRI (object
+    of an instantiation triple, requested target class) starts with '%' or "@"
+    ([class_iris_ok]): with remove_empty_shapes on, the profile-level cleaning
+    keeps only classes that have features -- hence an instance -- or whose key
+    is an "original label", which no such class IRI is; with it off (iii)
+    holds.  So for binary64, thresholds <= 1 and fewer than 2^53 triples the
+    run never raises on (i), (ii), (iv) + [class_iris_ok], whatever the options. *)
+Theorem C04_run_total_any_options : forall c thr g,
+  wf_frac thr -> fle BAlg thr (fone BAlg) = true -> (N.of_nat (List.length g) < 2 ^ 53)%N ->
+  typing_okb (r_tau c) g && forallb (sentinel_free (r_tau c)) g && prefix_free c && class_iris_ok c g = true ->
+  exists ns shapes, run_shapes BAlg c thr g = inl (ns, shapes).
+Proof. exact run_total_valid. Qed.
+Print Assumptions C04_run_total_any_options.
+
+Theorem C04_run_shexc_total_any_options : forall c thr g,
+  wf_frac thr -> fle BAlg thr (fone BAlg) = true -> (N.of_nat (List.length g) < 2 ^ 53)%N ->
+  typing_okb (r_tau c) g && forallb (sentinel_free (r_tau c)) g && prefix_free c && class_iris_ok c g = true ->
+  exists text, run_shexc BAlg c thr g = inl text.
+Proof. exact run_shexc_total_valid. Qed.
+Print Assumptions C04_run_shexc_total_any_options.
+
+(** non-vacuity: target classes (one without instances), disjunctions enabled,
+    remove_empty_shapes on *)
+Definition c04_targets_rcfg : rcfg :=
+  {| r_tau := tau; r_targets := Some [ex "C"; ex "C1"; ex "C2"; ex "D"]; r_ns := [];
+     r_shapes_ns := c_SHAPES_DEFAULT_NAMESPACE; r_cap := (-1)%Z;
+     r_inverse := true; r_remove_empty := true; r_discard_useless := true; r_keep_less_specific := true;
+     r_all_compliant := true; r_disable_or := false; r_allow_redundant_or := false; r_allow_opt := true;
+     r_disable_exact := false; r_disable_comments := false; r_mode := FMixed |}.
+
+Example C04_any_options_nonvacuous :
+  options_ok c04_targets_rcfg = false /\
+  typing_okb (r_tau c04_targets_rcfg) g_reftie_1 && forallb (sentinel_free (r_tau c04_targets_rcfg)) g_reftie_1 &&
+  prefix_free c04_targets_rcfg && class_iris_ok c04_targets_rcfg g_reftie_1 = true /\
+  exists text, run_shexc BAlg c04_targets_rcfg thr0 g_reftie_1 = inl text.
+Proof. split; [reflexivity|]. split; [vm_compute; reflexivity|]. eexists. vm_compute. reflexivity. Qed.
